@@ -48,6 +48,7 @@ def cfgOfArgs (kv : List (String × String)) : Cfg :=
     parseConsumesAll := triArg kv "parseConsumesAll" false
     shortPayloadIsEOF := triArg kv "shortPayloadIsEOF" false
     chronSurfacesError := triArg kv "chronSurfacesError" false
+    openCutsTornTail := triArg kv "openCutsTornTail" false
     v2Fallback := triArg kv "v2Fallback" true
     rejectsLongName := triArg kv "rejectsLongName" false }
 
